@@ -450,6 +450,65 @@ def unsortable_stream(c, n):
             c.violation("dataset-differs", "unsortable case argument: " + bad, rep)
 
 
+def mixed_fn(a, b):
+    return 10 * a + b, np.array([100.0 * a + 10 * b + t for t in range(3)])
+
+
+def mixed_outputs_stream(c, n):
+    """One scalar output next to one array output, the internal dimension declared in every spelling of var_dims
+    (positional with an EMPTY entry for the scalar, either order; mapping; mapping with tuple keys): the scalar has
+    the swept dimensions only, the array those followed by its own, every number in place (oracle only)."""
+    import xyzpy
+    for k in range(n):
+        rng = c.rng
+        swap = rng.random() < 0.5                      # which output comes first
+        names = ("arr", "s") if swap else ("s", "arr")
+        fn = (lambda a, b: mixed_fn(a, b)[::-1]) if swap else mixed_fn
+        empty = rng.choice([(), []])
+        dims_t = rng.choice([("t",), ["t"], "t"])
+        spelling = rng.choice(["positional", "positional", "mapping", "mapping-with-empty"])
+        if spelling == "positional":
+            var_dims = [dims_t, empty] if swap else [empty, dims_t]
+            if rng.random() < 0.5:
+                var_dims = tuple(var_dims)
+        elif spelling == "mapping":
+            var_dims = {"arr": dims_t}
+        else:
+            var_dims = {"arr": dims_t, "s": empty}
+        avals = sorted(rng.sample(range(1, 6), rng.randint(1, 3)))
+        bvals = sorted(rng.sample(range(0, 4), rng.randint(1, 2)))
+        api = rng.choice(["combo_runner_to_ds", "Runner.run_combos", "label.run_combos"])
+        rep = {"stream": "scalar-and-array-outputs", "api": api, "names": list(names), "var_dims": repr(var_dims),
+               "a": avals, "b": bvals}
+        try:
+            if api == "combo_runner_to_ds":
+                ds = xyzpy.combo_runner_to_ds(fn, {"a": avals, "b": bvals}, names, var_dims=var_dims,
+                                              var_coords={"t": [0, 1, 2]}, verbosity=0)
+            elif api == "Runner.run_combos":
+                ds = xyzpy.Runner(fn, names, var_dims=var_dims, var_coords={"t": [0, 1, 2]}).run_combos(
+                    {"a": avals, "b": bvals}, verbosity=0)
+            else:
+                ds = xyzpy.label(names, var_dims=var_dims, var_coords={"t": [0, 1, 2]})(fn).run_combos(
+                    {"a": avals, "b": bvals}, verbosity=0)
+        except Exception as e:  # noqa
+            c.case(json.dumps(rep, sort_keys=True), nontrivial=True)
+            c.violation("raised", f"{type(e).__name__}: {str(e)[:160]} (var_dims={var_dims!r})", rep)
+            continue
+        c.case(json.dumps(rep, sort_keys=True), nontrivial=True, sample=rep if k % 10 == 0 else None)
+        c.count("api", "mixed/" + api); c.count("var_dims_spelling", spelling)
+        bad = None
+        if tuple(ds["s"].dims) != ("a", "b") or tuple(ds["arr"].dims) != ("a", "b", "t"):
+            bad = f"s has dims {ds['s'].dims}, arr has dims {ds['arr'].dims}"
+        else:
+            for a in avals:
+                for b in bvals:
+                    sv, av = mixed_fn(a, b)
+                    if float(ds["s"].sel(a=a, b=b)) != sv or list(ds["arr"].sel(a=a, b=b).values) != list(av):
+                        bad = f"values at a={a}, b={b}"
+        if bad:
+            c.violation("dataset-differs", "scalar and array outputs: " + bad, rep)
+
+
 def shifted_coord_stream(c, n):
     """Functions that return a Dataset / DataArray whose INTERNAL coordinate depends on a swept argument (same
     length for every setting): the results are outer-aligned, so selecting a setting and one of ITS x labels
@@ -643,6 +702,7 @@ def run(tier, seed):
                     metas.append(desc)
         shifted_coord_stream(c, 12 if tier == "quick" and not c.broken else 80)
         unsortable_stream(c, 20 if tier == "quick" and not c.broken else 150)
+        mixed_outputs_stream(c, 20 if tier == "quick" and not c.broken else 150)
         bad, _ = core.safe_run_cases(c, "Prelude Grid Perm Runner RunnerInst Flow Label LabelInst", pairs, chunk=120)
         for i in bad:
             c.obligation_broken("correspondence Model/Label.v vs results_to_ds / results_to_df",
